@@ -42,6 +42,13 @@ def respell(e, rng):
     return e.__class__(respell(e._inner, rng))
 
 
+def _other_base(b):
+    nb = b * 2 + 1
+    if nb == 1 or nb == b or nb != nb or nb == float('inf'):
+        nb = 2.5 if b != 2.5 else 3.5
+    return nb
+
+
 def nodes(e, path=()):
     yield path, e
     for i, c in enumerate(wire.children(e)):
@@ -81,10 +88,10 @@ def mutate(e, rng):
         return "class", replace_at(e, path, other(n._inner, n._parameter))
     if c in ("Exponential", "Logarithm"):
         if rng.random() < 0.5:
-            return "base", replace_at(e, path, n.__class__(n._inner, base=n._parameter * 2 + 1))
+            return "base", replace_at(e, path, n.__class__(n._inner, base=_other_base(n._parameter)))
         other = X.Logarithm if c == "Exponential" and n._parameter != 1 else X.Exponential
         if other is n.__class__:
-            return "base", replace_at(e, path, n.__class__(n._inner, base=n._parameter * 2 + 1))
+            return "base", replace_at(e, path, n.__class__(n._inner, base=_other_base(n._parameter)))
         return "class", replace_at(e, path, other(n._inner, base=n._parameter))
     if c in ("Add", "Multiply"):
         k = rng.choice(["arity+", "arity-", "order", "class"])
